@@ -64,6 +64,10 @@ Definition mkgen (o : sobj) : gen := mkG (s_ent o) (s_key o) [].
    which API call.  This determines the drawn values. *)
 Record drec := mkD { d_ent : Z; d_key : list nat; d_before : hist; d_kind : dkind; d_n : nat }.
 
+(* a Context object: self._sseq (heap index) and self._depth (written by every __enter__) *)
+Record cobj := mkC { c_sseq : nat; c_depth : nat }.
+Definition dC : cobj := mkC 0 0.
+
 (* ---- module state ---- *)
 Definition snap := (list sobj * list nat * list gen)%type.    (* pickled (_sseq, _rng) *)
 Record st := mkSt {
@@ -72,11 +76,13 @@ Record st := mkSt {
   sseq : list nat;         (* _sseq, top first (heap indices) *)
   rng : list gen;          (* _rng, top first *)
   saved : option snap;     (* result of the last getState() *)
-  dlog : list drec         (* draws made so far, newest first *)
+  dlog : list drec;        (* draws made so far, newest first *)
+  cheap : list cobj;       (* all Context objects that were bound to a variable *)
+  cpool : list nat         (* user variables holding Context objects, newest first (indices into cheap) *)
 }.
 
 Definition set_stacks (s : st) (ss : list nat) (rr : list gen) : st :=
-  mkSt (heap s) (pool s) ss rr (saved s) (dlog s).
+  mkSt (heap s) (pool s) ss rr (saved s) (dlog s) (cheap s) (cpool s).
 
 Inductive exc := EUser | EIndex | ERuntime.
 (* result of executing something: new state, exception raised (if any), and a flag telling
@@ -93,7 +99,7 @@ Definition do_push (id : nat) (s : st) : st :=
 
 (* np.random.SeedSequence(seed): a new object *)
 Definition alloc (o : sobj) (s : st) : st * nat :=
-  (mkSt (heap s ++ [o]) (pool s) (sseq s) (rng s) (saved s) (dlog s), length (heap s)).
+  (mkSt (heap s ++ [o]) (pool s) (sseq s) (rng s) (saved s) (dlog s) (cheap s) (cpool s), length (heap s)).
 
 (* pop_sseq():  _sseq.pop(); _rng.pop()   (list.pop on an empty list raises IndexError) *)
 Definition do_pop (s : st) : res :=
@@ -121,7 +127,8 @@ Definition children (o : sobj) (n : nat) : list sobj :=
 Definition do_spawn (id n : nat) (s : st) : st :=
   let o := lookup s id in
   let h1 := upd (heap s) id (mkS (s_ent o) (s_key o) (s_nch o + n)) in
-  mkSt (h1 ++ children o n) (rev (seq (length h1) n) ++ pool s) (sseq s) (rng s) (saved s) (dlog s).
+  mkSt (h1 ++ children o n) (rev (seq (length h1) n) ++ pool s) (sseq s) (rng s) (saved s) (dlog s)
+       (cheap s) (cpool s).
 
 (* one API draw of kind k, n values, from _rng[-1] *)
 Definition do_draw (k : dkind) (n : nat) (s : st) : res :=
@@ -131,12 +138,12 @@ Definition do_draw (k : dkind) (n : nat) (s : st) : res :=
     (mkSt (heap s) (pool s) (sseq s)
           (mkG (g_ent g) (g_key g) ((k, n) :: g_hist g) :: rr)
           (saved s)
-          (mkD (g_ent g) (g_key g) (g_hist g) k n :: dlog s), None, false)
+          (mkD (g_ent g) (g_key g) (g_hist g) k n :: dlog s) (cheap s) (cpool s), None, false)
   end.
 
 (* getState(): pickle.dumps((_sseq, _rng)) -- a deep copy of everything reachable *)
 Definition do_getstate (s : st) : st :=
-  mkSt (heap s) (pool s) (sseq s) (rng s) (Some (heap s, sseq s, rng s)) (dlog s).
+  mkSt (heap s) (pool s) (sseq s) (rng s) (Some (heap s, sseq s, rng s)) (dlog s) (cheap s) (cpool s).
 
 (* setState(state): pickle.loads creates NEW objects (aliasing inside the pickle preserved, aliasing
    with live objects lost).  The model copies the whole pickled heap behind the current heap. *)
@@ -145,6 +152,7 @@ Definition do_setstate (s : st) : st :=
   | None => s                                          (* the test programs never do this *)
   | Some (h, ss, rr) =>
     mkSt (heap s ++ h) (pool s) (map (fun i => i + length (heap s)) ss) rr (saved s) (dlog s)
+         (cheap s) (cpool s)
   end.
 
 (* ---- test programs ---- *)
@@ -162,7 +170,9 @@ Inductive prog :=
 | Raise                               (* raise UserError *)
 | Try (body : prog)                   (* try: body / except Exception: pass *)
 | GetState                            (* saved = getState() *)
-| SetState.                           (* setState(saved) *)
+| SetState                            (* setState(saved) *)
+| NewCtx (i : inp)                    (* cpool = [Context(i)] + cpool   (a Context OBJECT bound to a variable) *)
+| Enter (c : nat) (body : prog).      (* with cpool[c]: body            (the same object may be entered again) *)
 
 (* Context(inp): an int becomes a new SeedSequence object; a variable is used as it is.
    A reference to a variable that does not exist is skipped by the test-program interpreter
@@ -183,6 +193,18 @@ Definition ctx_exit (depth : nat) (r : res) : res :=
             then (s4, o, t)                            (* return exc_type is None: o propagates *)
             else (s4, Some ERuntime, t)                (* "inconsistent RNG usage detected" *)
   end.
+
+(* Context(inp) bound to a variable *)
+Definition new_ctx (id : nat) (s : st) : st :=
+  mkSt (heap s) (pool s) (sseq s) (rng s) (saved s) (dlog s) (cheap s ++ [mkC id 0]) (length (cheap s) :: cpool s).
+Definition cobj_of (s : st) (cid : nat) : cobj := nth cid (cheap s) dC.
+Definition set_cdepth (cid d : nat) (s : st) : st :=
+  mkSt (heap s) (pool s) (sseq s) (rng s) (saved s) (dlog s)
+       (upd (cheap s) cid (mkC (c_sseq (cobj_of s cid)) d)) (cpool s).
+(* __exit__ of a Context object: the depth compared is the one CURRENTLY stored in the object
+   (a nested entry of the same object has overwritten it) *)
+Definition obj_exit (cid : nat) (r : res) : res :=
+  let '(s3, _, _) := r in ctx_exit (c_depth (cobj_of s3 cid)) r.
 
 Fixpoint exec (p : prog) (s : st) : res :=
   match p with
@@ -220,11 +242,24 @@ Fixpoint exec (p : prog) (s : st) : res :=
   | Try body => let '(s1, _, t) := exec body s in (s1, None, t)
   | GetState => (do_getstate s, None, true)
   | SetState => (do_setstate s, None, true)
+  | NewCtx i =>
+    match resolve i s with
+    | None => (s, None, false)
+    | Some (s1, id) => (new_ctx id s1, None, false)
+    end
+  | Enter c body =>
+    match nth_error (cpool s) c with
+    | None => (s, None, false)
+    | Some cid =>
+      (* __enter__: self._depth = len(_sseq); push_sseq(self._sseq) *)
+      let s1 := set_cdepth cid (length (sseq s)) s in
+      obj_exit cid (exec body (do_push (c_sseq (cobj_of s cid)) s1))
+    end
   end.
 
 (* module state right after import, with SeedSequence(e) instead of 42 *)
 Definition init (e : Z) : st :=
-  mkSt [mkS e [] 0] [] [0] [mkgen (mkS e [] 0)] None [].
+  mkSt [mkS e [] 0] [] [0] [mkgen (mkS e [] 0)] None [] [] [].
 
 (* ---- frames: the same state with further entries below the stacks ---- *)
 Definition frame (B : list nat) (RB : list gen) (s : st) : st :=
@@ -239,7 +274,17 @@ Fixpoint scoped (p : prog) : bool :=
   | Seq p q => scoped p && scoped q
   | Ctx _ b => scoped b
   | Try b => scoped b
-  | Push _ | PushSeed _ | Pop | GetState | SetState => false
+  | Push _ | PushSeed _ | Pop | GetState | SetState | NewCtx _ | Enter _ _ => false
+  end.
+
+(* ---- programs that do not use Context objects bound to variables (only inline `with Context(..)`) ---- *)
+Fixpoint noobj (p : prog) : bool :=
+  match p with
+  | NewCtx _ | Enter _ _ => false
+  | Seq p q => noobj p && noobj q
+  | Ctx _ b => noobj b
+  | Try b => noobj b
+  | _ => true
   end.
 
 (* ---- well-formedness (what makes the totalised [nth] lookups meaningful) ---- *)
@@ -249,7 +294,8 @@ Definition snap_ok (x : snap) : Prop :=
 Definition wf (s : st) : Prop :=
   ids_ok (length (heap s)) (sseq s) /\ ids_ok (length (heap s)) (pool s) /\
   length (sseq s) = length (rng s) /\
-  match saved s with None => True | Some x => snap_ok x end.
+  match saved s with None => True | Some x => snap_ok x end /\
+  ids_ok (length (heap s)) (map c_sseq (cheap s)) /\ ids_ok (length (cheap s)) (cpool s).
 
 (* ---- observations used by the correspondence check ---- *)
 Definition view_sseq (s : st) : list sobj := map (lookup s) (sseq s).
